@@ -297,3 +297,40 @@ func (f *Fix) StoreDigest(storeNames ...string) string {
 	}
 	return fmt.Sprintf("%x", h.Sum(nil)[:8])
 }
+
+// ImportedCopy exports the full application state of f (all modules' ExportGenesis on the live
+// context) and initialises a fresh application from it through the production InitChainer.
+// It returns the new fixture (same height and time), the two exports (original and re-export of
+// the imported chain) and the error/panic of the import, if any.
+func (f *Fix) ImportedCopy() (f2 *Fix, exp1, exp2 map[string]json.RawMessage, err error) {
+	defer func() {
+		if e := recover(); e != nil {
+			err = &PanicError{Val: e, Stack: string(debug.Stack())}
+		}
+	}()
+	exp1 = f.App.ExportState(f.Ctx)
+	bz, merr := json.Marshal(exp1)
+	if merr != nil {
+		return nil, exp1, nil, merr
+	}
+	a2, _ := apptesting.SetupTestingApp()
+	f2 = &Fix{T: f.T, App: a2, Height: f.Height, Time: f.Time}
+	f2.setCtx()
+	if _, err = a2.InitChainer(f2.Ctx, &abci.RequestInitChain{ChainId: apptesting.TestChainID, AppStateBytes: bz, Time: f.Time, InitialHeight: f.Height}); err != nil {
+		return f2, exp1, nil, err
+	}
+	exp2 = a2.ExportState(f2.Ctx)
+	return f2, exp1, exp2, nil
+}
+
+// Invariants runs every registered module invariant; it returns the panic message of the first
+// broken one ("" when all hold).
+func (f *Fix) Invariants() (msg string) {
+	defer func() {
+		if e := recover(); e != nil {
+			msg = fmt.Sprint(e)
+		}
+	}()
+	f.App.CrisisKeeper.AssertInvariants(f.Ctx)
+	return ""
+}
